@@ -8,7 +8,7 @@ import (
 )
 
 func init() {
-	register("C34", []string{"./src/fs/..."}, checkC34)
+	register("C34", []string{"./src/fs/...", "./src/cache/...", "./src/core/..."}, checkC34)
 }
 
 // destructive file-system calls: name -> index of the argument that is created / modified / removed
@@ -27,6 +27,27 @@ func checkC34(p *Prog, r *Report) {
 	if col == nil || rec == nil || cf == nil {
 		r.unresolved("E8.source-untouched", "fs.CopyOrLinkFile / RecursiveCopyOrLinkFile / CopyFile")
 		return
+	}
+	importRules(p, r, checkC12, "cache/", "E9.archive-writer-reader")
+	// preparing a source links it whatever is already at the destination (another input may have created a parent
+	// directory of it): PrepareSource reaches RecursiveLink on every successful path
+	if ps := p.Fn("core", "PrepareSource"); ps == nil {
+		r.unresolved("E5.prepare-always-links", "core.PrepareSource")
+	} else {
+		skip := false
+		n := 0
+		for _, rc := range returnCases(ps, 0) {
+			if !isNilConst(rc.Vals[0]) {
+				continue
+			}
+			n++
+			if existsPath(ps, nil, rc.Ret, func(j ssa.Instruction) bool {
+				return isCallTo(j, "fs.RecursiveLink", "fs.RecursiveCopy", "fs.CopyOrLinkFile")
+			}) {
+				skip = true
+			}
+		}
+		r.check(!skip, "E5.prepare-always-links", "PrepareSource cannot succeed without linking the source", p.pos(ps.Pos()), fnName(ps), "every nil return lies behind RecursiveLink", "PrepareSource returns success without linking when something already exists at the destination: a directory output whose destination directory was created by a file linked underneath it earlier is silently skipped, so none of its files, sub-directories or links reach the build directory")
 	}
 	// a copy always transfers the content: CopyFile reports success only as the result of writing the destination
 	if wf := p.Fn("fs", "WriteFile"); wf == nil {
